@@ -465,12 +465,12 @@ async fn maintenance(net: Net, seed: u64, npeers: usize, minutes: u64, mask: u64
         net.with(|n| { n.send_fail.insert(bad); });
     }
     let dht = start_node(&net, &NodeCfg { addr: me, id: Some(my_id), read_only: seed % 3 == 0, announce_port: None, nodes: given, routers: vec![] });
-    net.log(json!({"ev":"Plan","node":addr_json(&me),"peers":plan}));
+    let with_searches = seed % 4 == 1;
+    net.log(json!({"ev":"Plan","node":addr_json(&me),"peers":plan,"searches":with_searches}));
     if tokio::time::timeout(std::time::Duration::from_secs(1200), wait_bootstrapped(&net, &dht, me, 1)).await.is_err() {
         net.log(json!({"ev":"End"}));
         return;
     }
-    let with_searches = seed % 4 == 1;
     let mut sid = 10;
     let steps = minutes * 12;
     for k in 0..steps {
